@@ -12,7 +12,8 @@ FUNCS = ['androguard.core.dex.read_null_terminated_string', 'readuleb128/readsle
          'HiddenApiClassDataItem.__init__', 'EncodedArray/EncodedAnnotation/EncodedCatchHandlerList.__init__',
          'androguard.core.axml.ARSCHeader.__init__ (dummy-data loop)', 'androguard.core.axml.StringBlock.__init__',
          'androguard.core.apk.APK.parse_signatures_or_digests', 'APK.read_uint32_le',
-         'androguard.core.axml.AXMLParser.__init__ / _do_next (chunk walk)', 'ARSCParser.__init__ (chunk walk)', 'ARSCHeader.end']
+         'androguard.core.axml.AXMLParser.__init__ / _do_next (chunk walk)', 'ARSCParser.__init__ (chunk walk)', 'ARSCHeader.end',
+         'ARSCResTypeSpec.__init__ (entry loop)']
 
 
 class Counter:
@@ -23,6 +24,7 @@ class Counter:
     def __call__(self, loop_id):
         self.n += 1
         if self.n > self.bound:
+            E.UNWOUND[0] = "loop %s exceeded %d iterations" % (loop_id, self.bound)
             raise UnwindExceeded("loop %s exceeded %d iterations" % (loop_id, self.bound))
 
 
@@ -72,6 +74,9 @@ def targets():
         f.seek(4)
         return axml.ARSCHeader(f).size
 
+    def typespec(buf):
+        return len(axml.ARSCResTypeSpec(axml.io.BytesIO(buf)).typespec_entries)
+
     import struct as _st
 
     def axml_doc(buf):
@@ -100,10 +105,11 @@ def targets():
         'EncodedArray': (enc_array, [3], [4], lambda N: N + 2),
         'EncodedAnnotation': (enc_annotation, [3], [4], lambda N: N + 2),
         'EncodedCatchHandlerList': (handlers, [4], [5, 6], lambda N: N + 2),
+        'ARSCResTypeSpec': (typespec, [12, 16], [16, 24], lambda N: N + 2),
         'ARSCHeader': (arsc_header, [12, 14], [16, 20], lambda N: N + 2),
         'parse_signatures_or_digests': (digests, [12, 16], [20, 24], lambda N: N + 2),
-        'AXMLParser chunk walk': (axml_doc, [8, 12], [12, 16], lambda N: 4 * N + 16),
-        'ARSCParser chunk walk': (arsc_doc, [8, 12], [12, 16], lambda N: 4 * N + 16),
+        'AXMLParser chunk walk': (axml_doc, [8, 12, 16], [12, 16], lambda N: 4 * N + 16),
+        'ARSCParser chunk walk': (arsc_doc, [8, 12, 16], [12, 16], lambda N: 4 * N + 16),
     }
 
 
@@ -119,9 +125,12 @@ def job(jc, spec):
     def go():
         c = Counter(bound)
         hook.LOOP_HOOK[0] = c
+        E.UNWOUND[0] = None
         try:
             try:
                 r = runner(SBytes(B))
+                if E.UNWOUND[0]:        # the parser caught the unwinding exception in a broad except clause
+                    return ('unwound', E.UNWOUND[0])
                 return ('done', c.n)
             except UnwindExceeded as e:
                 return ('unwound', str(e))
@@ -130,12 +139,17 @@ def job(jc, spec):
             except Abort:
                 raise
             except Exception as e:
+                if E.UNWOUND[0]:
+                    return ('unwound', E.UNWOUND[0])
                 return ('error', type(e).__name__, c.n)       # "raising an error" is a permitted way to finish
         finally:
             hook.LOOP_HOOK[0] = None
 
+    alt = []
+
     def ext(m):
-        return dict(target=name, bytes=mbytes(m, B).hex())
+        # `alt`: the solver's first model of the same path; the replay accepts either input
+        return dict(target=name, bytes=mbytes(m, B).hex(), alt=list(alt), bound=bound)
     worst = 0
     for pc, (kind, r) in eng.explore(go, keep_pcs=True):
         jc.reached(name)
@@ -143,6 +157,14 @@ def job(jc, spec):
             jc.obligation(eng, pc, z3.BoolVal(False), ext, label=label, what='harness: %r' % (r,))
             continue
         if r[0] == 'unwound':
+            # the witness is pushed towards the largest counts the path allows (greedily, high bytes first), so that the
+            # replay on the real code sees as much work as this path can cause, not just one iteration over the bound
+            pc = list(pc)
+            m0 = eng.solve(pc)
+            alt[:] = [mbytes(m0, B).hex()] if m0 is not None else []
+            for b in reversed(B):
+                if eng.solve(pc, [b.e == 255]) is not None:
+                    pc.append(b.e == 255)
             jc.obligation(eng, pc, z3.BoolVal(False), ext, label=label,
                           what='more than %d loop iterations on %d input bytes (%s)' % (bound, N, r[1]))
         else:
@@ -168,11 +190,15 @@ def run(ctx):
     ctx.assumptions = ['every loop iteration of these functions consumes at least one input byte or ends the loop; an exception '
                        'is an accepted way to finish', 'LinearSweepAlgorithm progress is C02, resource reference cycles C29']
     ctx.outside_claim = ['whole-file parses and buffers longer than the stated N', 'CPU time of C callees (zlib, lxml)',
-                         'the attribute / entry loops inside AXML and ARSC chunks (covered through the C26/C28 skeletons only)',
+                         'the attribute / entry loops inside AXML and ARSC chunks other than the type-spec entry loop (covered through the C26/C28 skeletons only)',
                          'parse_v2_v3_signature loops (C33 skeleton)']
     import random
     rnd = random.Random(ctx.seed)
-    cases = [[n, rnd.randbytes(N).hex()] for n in T for N in T[n][1] for _ in range(4) if n != 'read_null_terminated_string']
+    cases = [[n, rnd.randbytes(N).hex()] for n in T for N in T[n][1] for _ in range(4)
+             if n not in ('read_null_terminated_string', 'ARSCResTypeSpec')]
+    # (this comparison validates the model on ordinary inputs; declared counts stay small so that it ends on any tree)
+    cases += [['ARSCResTypeSpec', (rnd.randbytes(4) + bytes([k, 0, 0, 0]) + rnd.randbytes(N - 8)).hex()]
+              for N in T['ARSCResTypeSpec'][1] for k in (0, 1, 2, 5)]
     cases += [['read_null_terminated_string', (b'a' * 200 + b'\x00').hex()], ['read_null_terminated_string', (b'abc\x00d').hex()]]
     ctx.diff_unhooked(sys.modules[__name__], cases)
     ctx.expect_reach(list(T))
@@ -215,6 +241,8 @@ def _run_real(name, bs):
         return len(apkmod.APK.__new__(apkmod.APK).parse_signatures_or_digests(bs))
     import struct as _st
     n = len(bs)
+    if name == 'ARSCResTypeSpec':
+        return len(axml.ARSCResTypeSpec(axml.io.BytesIO(bs)).typespec_entries)
     if name == 'AXMLParser chunk walk':
         pre = _st.pack('<HHI', 0x0003, 8, 8 + 28 + n) + _st.pack('<HHIIIIII', 0x0001, 28, 28, 0, 0, 0, 28, 0)
         p = axml.AXMLParser(pre + bs)
@@ -239,17 +267,70 @@ def concrete(c):
 
 
 def replay(w):
-    """non-termination / super-linear work is confirmed under a wall-clock limit in a thread"""
+    last = (False, '')
+    for hx in [w['bytes']] + list(w.get('alt', [])):
+        last = _replay_one(w['target'], hx, w.get('bound'))
+        if last[0]:
+            return last
+    return last
+
+
+_LOOP_LINES = {}
+
+
+def _loop_lines(filename):
+    """first body line of every while / for statement of a source file: the places where the import hook puts its probe"""
+    if filename not in _LOOP_LINES:
+        import ast
+        try:
+            tree = ast.parse(open(filename).read())
+            _LOOP_LINES[filename] = {n.body[0].lineno for n in ast.walk(tree) if isinstance(n, (ast.While, ast.For))}
+        except Exception:
+            _LOOP_LINES[filename] = set()
+    return _LOOP_LINES[filename]
+
+
+def _replay_one(target, hx, bound):
+    """the same measure as the symbolic run, taken on the real code with a line tracer in a thread: the number of loop
+    iterations (arrivals at the first body line of any while / for statement of androguard) exceeds the bound, or the
+    call does not finish within 5 s"""
     import threading
     import time
-    bs = bytes.fromhex(w['bytes'])
+    bs = bytes.fromhex(hx)
     res = {}
+    if bound is None:
+        bound = targets()[target][3](len(bs))
+    count = [0]
+
+    class TooMuch(BaseException):
+        pass
+
+    def tracer(frame, event, arg):
+        fn = frame.f_code.co_filename
+        if 'androguard' not in fn:
+            return None
+        heads = _loop_lines(fn)
+        if not heads:
+            return None
+
+        def local(frame, event, arg):
+            if event == 'line' and frame.f_lineno in heads:
+                count[0] += 1
+                if count[0] > bound:
+                    raise TooMuch()
+            return local
+        return local
 
     def run():
+        sys.settrace(tracer)
         try:
-            res['r'] = ('ok', _run_real(w['target'], bs))
+            res['r'] = ('ok', _run_real(target, bs))
+        except TooMuch:
+            res['r'] = ('toomuch',)
         except Exception as e:
-            res['r'] = ('error', type(e).__name__)
+            res['r'] = ('toomuch',) if count[0] > bound else ('error', type(e).__name__)
+        finally:
+            sys.settrace(None)
     t0 = time.time()
     t = threading.Thread(target=run, daemon=True)
     t.start()
@@ -257,7 +338,9 @@ def replay(w):
     if t.is_alive():
         import os, json
         print(json.dumps([dict(reproduced=True, detail='%s does not finish within 5 s on the %d-byte input %s' % (
-            w['target'], len(bs), w['bytes'][:40]))]))
+            target, len(bs), hx[:40]))]))
         sys.stdout.flush()
         os._exit(0)
-    return False, '%s finished in %.3f s: %r' % (w['target'], time.time() - t0, res.get('r'))
+    if res.get('r') == ('toomuch',) or count[0] > bound:
+        return True, '%s runs more than %d loop iterations on the %d-byte input %s' % (target, bound, len(bs), hx[:40])
+    return False, '%s finished in %.3f s after %d loop iterations (bound %d): %r' % (target, time.time() - t0, count[0], bound, res.get('r'))
